@@ -3,6 +3,8 @@ import Proofs.C14.Bad
 import Proofs.C14.Get
 import Proofs.C14.Total
 import Proofs.C14.Get2
+import Proofs.C14.Headline
+import Proofs.C14.Checked
 /-! C14 proofs: zone tiling, the sentinel witness, non-vacuity data. (Parts: `Proofs/C14/*.lean`.) -/
 namespace PfC14
 open C14 Ring
@@ -69,21 +71,21 @@ theorem witness_ranges : rangesForInstanceOld dWitness true 1 "A" = .ok [] := by
   have h1 : dWitness.get? "A" = some instA := by decide
   have h2 : (zonesOf dWitness).length = 1 := by decide
   have hz : instA.zone = "z" := rfl
-  simp only [rangesForInstanceOld, rangesForInstanceWith, h1, h2, hz, witness_zoneTokens]
+  simp only [rangesForInstanceOld, rangesForInstanceWith, rangesForInstanceIdx, h1, h2, hz, witness_zoneTokens]
   decide
 
 theorem witness_ranges_B : rangesForInstanceOld dWitness true 1 "B" = .ok [1, 4294967295] := by
   have h1 : dWitness.get? "B" = some instB := by decide
   have h2 : (zonesOf dWitness).length = 1 := by decide
   have hz : instB.zone = "z" := rfl
-  simp only [rangesForInstanceOld, rangesForInstanceWith, h1, h2, hz, witness_zoneTokens]
+  simp only [rangesForInstanceOld, rangesForInstanceWith, rangesForInstanceIdx, h1, h2, hz, witness_zoneTokens]
   decide
 
 theorem witness_ranges_new : rangesForInstance dWitness true 1 "A" = .ok [0, 0] := by
   have h1 : dWitness.get? "A" = some instA := by decide
   have h2 : (zonesOf dWitness).length = 1 := by decide
   have hz : instA.zone = "z" := rfl
-  simp only [rangesForInstance, rangesForInstanceWith, h1, h2, hz, witness_zoneTokens]
+  simp only [rangesForInstance, rangesForInstanceWith, rangesForInstanceIdx, h1, h2, hz, witness_zoneTokens]
   decide
 
 theorem witness_wf : WFR dWitness := ⟨by decide, by decide, by decide, by decide⟩
@@ -104,14 +106,14 @@ theorem diverge_ranges_A : rangesForInstance dDiverge true 2 "A" = .ok [0, 9, 20
   have h1 : dDiverge.get? "A" = some divA := by decide
   have h2 : (zonesOf dDiverge).length = 2 := by decide
   have hz : divA.zone = "a" := rfl
-  simp only [rangesForInstance, rangesForInstanceWith, h1, h2, hz, diverge_zoneTokens]
+  simp only [rangesForInstance, rangesForInstanceWith, rangesForInstanceIdx, h1, h2, hz, diverge_zoneTokens]
   decide
 
 theorem diverge_ranges_B : rangesForInstance dDiverge true 2 "B" = .ok [10, 19] := by
   have h1 : dDiverge.get? "B" = some divB := by decide
   have h2 : (zonesOf dDiverge).length = 2 := by decide
   have hz : divB.zone = "a" := rfl
-  simp only [rangesForInstance, rangesForInstanceWith, h1, h2, hz, diverge_zoneTokens]
+  simp only [rangesForInstance, rangesForInstanceWith, rangesForInstanceIdx, h1, h2, hz, diverge_zoneTokens]
   decide
 
 theorem diverge_get : (C01.specWalked cfgDiverge C01.opWrite dDiverge 5).map (·.id) = ["A", "C", "B"] ∧
